@@ -131,11 +131,30 @@ Unlinked(c) == Flatten([k \in 1..Len(c.datasets) |-> IF HasGlobal(c.datasets[k])
 SortedSeq(S) == LET RECURSIVE F(_)
                     F(T) == IF T = {} THEN <<>> ELSE LET x == CHOOSE x \in T : \A z \in T : x <= z IN <<x>> \o F(T \ {x})
                 IN F(S)
-Linked(c) == LET ax == SortedSeq(UNION {Range(c.datasets[k].axis) : k \in 1..Len(c.datasets)}) IN
+(* alignment with tolerance (method nearest; ClpLink.tla covers the methods and the ties): datasets in order, each point moves onto the *)
+(* nearest point aligned BEFORE its dataset if one lies within the tolerance                                                          *)
+NearestIn(target, p, tol) == LET cand == {q \in target : Abs(q - p) <= tol} IN
+   IF cand = {} THEN p ELSE CHOOSE q \in cand : \A r \in cand : Abs(q - p) <= Abs(r - p)
+TieIn(target, p, tol) == LET cand == {q \in target : Abs(q - p) <= tol} IN
+   \E q \in cand, r \in cand : q # r /\ Abs(q - p) = Abs(r - p) /\ \A u \in cand : Abs(q - p) <= Abs(u - p)
+RECURSIVE AlignFrom(_, _, _, _)
+AlignFrom(c, k, target, acc) == IF k > Len(c.datasets) THEN acc ELSE
+   LET ax == c.datasets[k].axis
+       al == IF k = 1 THEN ax ELSE [i \in 1..Len(ax) |-> NearestIn(target, ax[i], c.tol)]
+   IN AlignFrom(c, k + 1, target \cup Range(al), Append(acc, al))
+AlignedAxes(c) == AlignFrom(c, 1, {}, <<>>)
+RECURSIVE TiesFrom(_, _, _)
+TiesFrom(c, k, target) == IF k > Len(c.datasets) THEN FALSE ELSE
+   LET ax == c.datasets[k].axis
+       al == IF k = 1 THEN ax ELSE [i \in 1..Len(ax) |-> NearestIn(target, ax[i], c.tol)]
+   IN (k > 1 /\ \E i \in 1..Len(ax) : TieIn(target, ax[i], c.tol)) \/ Cardinality(Range(al)) # Len(al) \/ TiesFrom(c, k + 1, target \cup Range(al))
+AlignmentUndecided(c) == TiesFrom(c, 1, {})       \* a tie (D3) or a refused alignment (AlignDatasetError): outside this module's premise
+
+Linked(c) == LET al == AlignedAxes(c) ax == SortedSeq(UNION {Range(al[k]) : k \in 1..Len(c.datasets)}) IN
    [ai \in 1..Len(ax) |-> LET g == ax[ai]
-        mem == SelectSeq([k \in 1..Len(c.datasets) |-> k], LAMBDA k : g \in Range(c.datasets[k].axis))
+        mem == SelectSeq([k \in 1..Len(c.datasets) |-> k], LAMBDA k : g \in Range(al[k]))
         D(p) == c.datasets[mem[p]]
-        gi(p) == IndexOf(D(p).axis, g)
+        gi(p) == IndexOf(al[mem[p]], g)
         full == MergeLabels([p \in 1..Len(mem) |-> DsLabels(D(p))])
         A == Flatten([p \in 1..Len(mem) |-> Expand(Scaled(DsMatrix(D(p), gi(p)), D(p).scale), DsLabels(D(p)), full)])
         anyw == \E p \in 1..Len(mem) : HasW(c, D(p))
@@ -160,8 +179,10 @@ IsLinked(c) == IF c.link = "auto" THEN \A k \in 1..Len(c.datasets) : ~HasGlobal(
 NPoints(c) == SumSeq([k \in 1..Len(c.datasets) |-> Len(c.datasets[k].data) * Len(c.datasets[k].axis)])
 NClps(blocks) == SumSeq([b \in 1..Len(blocks) |-> IF blocks[b].kind = "full" THEN Len(blocks[b].labels) * Len(blocks[b].glabels) ELSE Len(blocks[b].reduced)])
 
+Undecided(b) == [b EXCEPT !.valid = FALSE, !.why = "alignment-tie-or-refused"]
 Expected(c) == LET linked == IsLinked(c)
-                   blocks == IF linked THEN Linked(c) ELSE Unlinked(c)
+                   blocks0 == IF linked THEN Linked(c) ELSE Unlinked(c)
+                   blocks == IF linked /\ AlignmentUndecided(c) THEN [b \in 1..Len(blocks0) |-> Undecided(blocks0[b])] ELSE blocks0
                    pens == IF linked THEN <<Penalties(c, blocks)>>
                            ELSE [k \in 1..Len(c.datasets) |-> IF HasGlobal(c.datasets[k]) THEN <<>> ELSE Penalties(c, DsBlocks(blocks, k))]
                IN [linked |-> linked, blocks |-> blocks, penalties |-> pens,
@@ -173,6 +194,7 @@ AllValid(e) == \A b \in 1..Len(e.blocks) : e.blocks[b].valid
 Tags(e) == Flatten([b \in 1..Len(e.blocks) |-> Flatten([p \in 1..Len(e.blocks[b].members) |->
                LET m == e.blocks[b].members[p] IN [r \in 1..m[3] |-> <<m[1], m[2], r>>]])])
 EachPointOnce(c, e) ==     \* every data point of every dataset exactly once in the residual part of the vector
+  (e.linked /\ AlignmentUndecided(c)) \/          \* a refused / tied alignment has no stacked problem
   LET tags == Tags(e) IN
   /\ Len(tags) = NPoints(c)
   /\ Cardinality(Range(tags)) = Len(tags)
@@ -190,7 +212,7 @@ ReducedLabels(e) == \A b \in 1..Len(e.blocks) : LET B == e.blocks[b] IN B.kind =
   /\ Range(B.reduced) \cap B.zeroed = {}
   /\ \A k \in 1..Len(B.rels) : B.rels[k][2] \notin Range(B.reduced)
   /\ B.valid => \A j \in 1..Len(B.labels) : (B.labels[j] \in B.zeroed /\ \A k \in 1..Len(B.rels) : B.rels[k][2] # B.labels[j]) => B.clp[j] = 0
-SharedIffSameIndex(c, e) == e.linked =>
+SharedIffSameIndex(c, e) == (e.linked /\ ~AlignmentUndecided(c)) =>
   \A b \in 1..Len(e.blocks) : \A p \in 1..Len(e.blocks[b].members) :
-      LET m == e.blocks[b].members[p] IN c.datasets[m[1]].axis[m[2]] = e.blocks[b].g
+      LET m == e.blocks[b].members[p] IN AlignedAxes(c)[m[1]][m[2]] = e.blocks[b].g /\ Abs(c.datasets[m[1]].axis[m[2]] - e.blocks[b].g) <= c.tol
 =============================================================================
